@@ -15,9 +15,17 @@
    callback raises after the result was recorded; a voter's agent raises a
    BaseException during collection), the statistics counters.
 
-   Time (last part of the file): timed histories - every run_vote call says how
-   long each member's agent needs for its answer, timeout_seconds may be
-   assigned; [run_case] is what the correspondence check evaluates.
+   Time: timed histories - every run_vote call says how long each member's
+   agent needs for its answer, timeout_seconds may be assigned.
+
+   Several objects: an instance and its copy.copy / copy.deepcopy copies
+   ([world]: the shared colony and result lists, what each object owns).
+
+   Numbers that are not finite ([xq], [xaggregate], [xrun_vote]): one run_vote
+   whose weights, reliabilities, payload confidences and custom threshold may be
+   nan / inf / -inf.
+
+   [run_case] (end of the file) is what the correspondence check evaluates.
 
    [legacy = true] selects the behaviour before the two C06 `fix:` commits
    (23cf55f fractional count threshold, 722a2c0 Bayesian update); the
@@ -638,17 +646,20 @@ Definition tobs_vote (st : qstate) (o : outcome) (answered : Z) : list (list Z) 
   ++ [[(-7)%Z; answered]]
   ++ [[(-4)%Z; match fired st o with None => 0 | Some true => 1 | Some false => 2 end]%Z].
 
+(* the observations of ONE operation made on the instance in (timed) state [ts] *)
+Definition tobs_call (legacy : bool) (ts : tstate) (o : top) : list (list Z) :=
+  match call_of o with
+  | Some (sc, d, None) =>
+      tobs_vote (t_q ts) (run_vote legacy (s_cfg (t_q ts)) (voters_of (s_colony (t_q ts)) sc))
+                (answered_within (s_colony (t_q ts)) d)
+  | Some (_, _, Some k) => if (k <? length (s_colony (t_q ts)))%nat then [[(-3)%Z]] else []
+  | None => []
+  end.
+
 Fixpoint tobs_history (legacy : bool) (ts : tstate) (ops : list top) : list (list Z) :=
   match ops with
   | [] => obs_state (t_q ts)
-  | o :: rest =>
-      (match call_of o with
-       | Some (sc, d, None) =>
-           tobs_vote (t_q ts) (run_vote legacy (s_cfg (t_q ts)) (voters_of (s_colony (t_q ts)) sc))
-                     (answered_within (s_colony (t_q ts)) d)
-       | Some (_, _, Some k) => if (k <? length (s_colony (t_q ts)))%nat then [[(-3)%Z]] else []
-       | None => []
-       end) ++ tobs_history legacy (tstep legacy ts o) rest
+  | o :: rest => tobs_call legacy ts o ++ tobs_history legacy (tstep legacy ts o) rest
   end.
 
 (* delays given as a list; members beyond it answer at once *)
@@ -657,10 +668,432 @@ Definition delays_of (l : list Q) : nat -> Q := fun i => nth i l 0.
 (* config, enable_reliability_tracking, timeout_seconds, initial (weight, reliability) per agent, operations *)
 Definition tcase := (config * bool * Q * list (Q * Q) * list top)%type.
 
-Definition run_case_gen (legacy : bool) (c : tcase) : list (list Z) :=
+Definition run_tcase_gen (legacy : bool) (c : tcase) : list (list Z) :=
   let '(cfg, tracking, timeout, ws, ops) := c in
   tobs_history legacy (mkT (init_state cfg tracking ws) timeout 0) ops.
 
+(* one instance, no copies (what the correspondence check evaluated before copies existed) *)
+Definition run_tcase (c : tcase) : list (list Z) := compress (run_tcase_gen false c).
+
+(* ---------------------------------------------------------------------- *)
+(* several objects: copy.copy / copy.deepcopy of a live instance             *)
+
+(* QuorumSensing defines neither __copy__ nor __deepcopy__.
+   copy.copy(quorum) therefore builds a second object of the same class whose
+   attributes are bound to the original's values: the plain values (strategy,
+   custom_threshold, min_voters, timeout_seconds, enable_reliability_tracking,
+   the two callbacks, the three counters) are from then on the copy's own - an
+   assignment or set_strategy on one object is not seen by the other - while
+   `colony` and `_vote_history` are THE SAME list objects (add_agent /
+   remove_agent / votes_cast / reliability learning through either object act
+   on the one shared colony).  `self.colony` is never re-bound;
+   `self._vote_history` is re-bound by run_vote when the list it has just
+   appended to holds more than 1000 results (the object then owns a fresh list
+   of the last 1000, the other objects keep the old one).
+   copy.deepcopy(quorum) raises TypeError (the instance holds a threading.Lock):
+   no object is created. *)
+
+(* what an object owns privately; [pv_hist]: which result list it refers to *)
+Record priv := mkPriv {
+  pv_cfg : config; pv_tracking : bool;
+  pv_on_reached : callback; pv_on_failed : callback;
+  pv_total : Z; pv_nreached : Z; pv_nfailed : Z;
+  pv_timeout : Q; pv_hist : nat }.
+
+(* the shared colony, the result lists (length, votes of the last entry), the
+   objects in the order they were created, the time spent in run_vote calls *)
+Record world := mkW {
+  w_colony : list profile;
+  w_hists : list (Z * option (list (Z * kind)));
+  w_objs : list priv;
+  w_now : Q }.
+
+Inductive wop :=
+| WOn (i : nat) (o : top)        (* operation o on object i *)
+| WCopy (i : nat)                (* copy.copy(object i): the new object is appended *)
+| WDeepCopy (i : nat).           (* copy.deepcopy(object i): raises, nothing is created *)
+
+Fixpoint set_nth {A : Type} (i : nat) (x : A) (l : list A) : list A :=
+  match l, i with
+  | [], _ => []
+  | _ :: r, O => x :: r
+  | y :: r, S j => y :: set_nth j x r
+  end.
+
+Definition hist_cell (w : world) (h : nat) : Z * option (list (Z * kind)) :=
+  nth h (w_hists w) (0%Z, None).
+
+(* the instance a caller holding object p sees *)
+Definition view (w : world) (p : priv) : tstate :=
+  mkT (mkState (pv_cfg p) (pv_tracking p) (w_colony w) (snd (hist_cell w (pv_hist p)))
+               (pv_on_reached p) (pv_on_failed p) (pv_total p) (pv_nreached p) (pv_nfailed p))
+      (pv_timeout p) (w_now w).
+
+(* does this operation append a result to the object's result list? *)
+Definition records (legacy : bool) (ts : tstate) (o : top) : bool :=
+  match call_of o with
+  | Some (sc, _, None) =>
+      match run_vote legacy (s_cfg (t_q ts)) (voters_of (s_colony (t_q ts)) sc) with
+      | Result _ => true
+      | RaisedZeroDivision => false
+      end
+  | _ => false
+  end.
+
+Definition hist_cap : Z := 1000.
+
+Definition wstep (legacy : bool) (w : world) (o : wop) : world :=
+  match o with
+  | WOn i t =>
+      match nth_error (w_objs w) i with
+      | None => w
+      | Some p =>
+          let ts := view w p in
+          let ts' := tstep legacy ts t in
+          let st' := t_q ts' in
+          let h := pv_hist p in
+          let n := fst (hist_cell w h) in
+          let rec := records legacy ts t in
+          let hists1 := if rec then set_nth h ((n + 1)%Z, s_last st') (w_hists w) else w_hists w in
+          let over := rec && (hist_cap <? n + 1)%Z in
+          let hists2 := if over then hists1 ++ [(hist_cap, s_last st')] else hists1 in
+          let h' := if over then length hists1 else h in
+          mkW (s_colony st') hists2
+              (set_nth i (mkPriv (s_cfg st') (s_tracking st') (s_on_reached st') (s_on_failed st')
+                                 (s_total st') (s_nreached st') (s_nfailed st') (t_timeout ts') h')
+                       (w_objs w))
+              (t_now ts')
+      end
+  | WCopy i =>
+      match nth_error (w_objs w) i with
+      | None => w
+      | Some p => mkW (w_colony w) (w_hists w) (w_objs w ++ [p]) (w_now w)
+      end
+  | WDeepCopy _ => w
+  end.
+
+Fixpoint wfinal (legacy : bool) (w : world) (ops : list wop) : world :=
+  match ops with
+  | [] => w
+  | o :: rest => wfinal legacy (wstep legacy w o) rest
+  end.
+
+(* every aggregated vote of a world history: which object was asked, the world
+   it was asked in, the script, the outcome *)
+Fixpoint wtrace (legacy : bool) (w : world) (ops : list wop)
+  : list (nat * world * (nat -> behaviour) * outcome) :=
+  match ops with
+  | [] => []
+  | o :: rest =>
+      (match o with
+       | WOn i t =>
+           match nth_error (w_objs w) i, call_of t with
+           | Some p, Some (sc, _, None) =>
+               [(i, w, sc, run_vote legacy (pv_cfg p) (voters_of (w_colony w) sc))]
+           | _, _ => []
+           end
+       | _ => []
+       end) ++ wtrace legacy (wstep legacy w o) rest
+  end.
+
+(* final observation: the shared colony, then the counters of every object *)
+Definition obs_world (w : world) : list (list Z) :=
+  [(-2)%Z; len (w_colony w)]
+  :: map (fun p => [p_id p; p_cast p; p_correct p; q_grid (p_rel p); q_grid (p_weight p)]) (w_colony w)
+  ++ map (fun p => [(-5)%Z; pv_total p; pv_nreached p; pv_nfailed p]) (w_objs w).
+
+(* a copy operation is the row [-8; 0 shallow / 1 deep; 1 an object was created / 0 it raised] *)
+Fixpoint wobs_history (legacy : bool) (w : world) (ops : list wop) : list (list Z) :=
+  match ops with
+  | [] => obs_world w
+  | o :: rest =>
+      (match o with
+       | WOn i t => match nth_error (w_objs w) i with Some p => tobs_call legacy (view w p) t | None => [] end
+       | WCopy i => match nth_error (w_objs w) i with Some _ => [[(-8)%Z; 0%Z; 1%Z]] | None => [] end
+       | WDeepCopy _ => [[(-8)%Z; 1%Z; 0%Z]]
+       end) ++ wobs_history legacy (wstep legacy w o) rest
+  end.
+
+Definition init_world (cfg : config) (tracking : bool) (timeout : Q) (ws : list (Q * Q)) : world :=
+  mkW (init_colony 0 ws) [(0%Z, None)] [mkPriv cfg tracking CbNone CbNone 0 0 0 timeout 0%nat] 0.
+
+(* operations on the object the case constructs *)
+Definition on0 (ops : list top) : list wop := map (WOn 0%nat) ops.
+
+(* config, enable_reliability_tracking, timeout_seconds, initial (weight, reliability) per agent, operations *)
+Definition wcase := (config * bool * Q * list (Q * Q) * list wop)%type.
+
+Definition run_world_gen (legacy : bool) (c : wcase) : list (list Z) :=
+  let '(cfg, tracking, timeout, ws, ops) := c in
+  wobs_history legacy (init_world cfg tracking timeout ws) ops.
+
+(* ---------------------------------------------------------------------- *)
+(* numbers that are not finite: nan, inf, -inf as weight, reliability,       *)
+(* payload confidence or custom threshold                                    *)
+
+(* A binary64 value is a rational, +inf, -inf or nan.  The operations below
+   are IEEE-754's on the three special values and exact on rationals (signed
+   zeros are not distinguished: no operation of the aggregators divides by a
+   zero, `total == 0` is tested first). *)
+Inductive xq := XFin (q : Q) | XPInf | XNInf | XNaN.
+
+Definition xadd (a b : xq) : xq :=
+  match a, b with
+  | XNaN, _ | _, XNaN => XNaN
+  | XPInf, XNInf | XNInf, XPInf => XNaN
+  | XPInf, _ | _, XPInf => XPInf
+  | XNInf, _ | _, XNInf => XNInf
+  | XFin p, XFin q => XFin (p + q)
+  end.
+
+Definition xneg (a : xq) : xq :=
+  match a with XFin q => XFin (- q) | XPInf => XNInf | XNInf => XPInf | XNaN => XNaN end.
+
+(* inf * q for a rational q *)
+Definition xinf_times (pos : bool) (q : Q) : xq :=
+  if Qeq_bool q 0 then XNaN
+  else if Qltb 0 q then (if pos then XPInf else XNInf) else (if pos then XNInf else XPInf).
+
+Definition xmul (a b : xq) : xq :=
+  match a, b with
+  | XNaN, _ | _, XNaN => XNaN
+  | XFin p, XFin q => XFin (p * q)
+  | XPInf, XFin q | XFin q, XPInf => xinf_times true q
+  | XNInf, XFin q | XFin q, XNInf => xinf_times false q
+  | XPInf, XPInf | XNInf, XNInf => XPInf
+  | XPInf, XNInf | XNInf, XPInf => XNInf
+  end.
+
+(* a / b, b not a zero *)
+Definition xdiv (a b : xq) : xq :=
+  match a, b with
+  | XNaN, _ | _, XNaN => XNaN
+  | XFin p, XFin q => XFin (p / q)
+  | XFin _, _ => XFin 0
+  | _, XPInf | _, XNInf => XNaN
+  | XPInf, XFin q => if Qltb 0 q then XPInf else XNInf
+  | XNInf, XFin q => if Qltb 0 q then XNInf else XPInf
+  end.
+
+(* a < b; every comparison with nan is false *)
+Definition xltb (a b : xq) : bool :=
+  match a, b with
+  | XNaN, _ | _, XNaN => false
+  | XFin p, XFin q => Qltb p q
+  | XNInf, XNInf => false
+  | XNInf, _ => true
+  | _, XNInf => false
+  | XPInf, _ => false
+  | XFin _, XPInf => true
+  end.
+
+(* a <= b *)
+Definition xleb (a b : xq) : bool :=
+  match a, b with
+  | XNaN, _ | _, XNaN => false
+  | XFin p, XFin q => Qle_bool p q
+  | XNInf, _ => true
+  | _, XPInf => true
+  | _, _ => false
+  end.
+
+(* x == 0 *)
+Definition xeq0 (a : xq) : bool :=
+  match a with XFin q => Qeq_bool q 0 | _ => false end.
+
+Record xvote := mkXVote { xv_kind : kind; xv_weight : xq; xv_conf : xq }.
+
+Definition xeff (v : xvote) : xq := xmul (xv_weight v) (xv_conf v).
+
+(* what one voter's agent does; the payload confidence is whatever float() made
+   of it (float("nan"), float("inf") are floats) *)
+Inductive xbehaviour := XActed (a : action) (c : option xq) | XFailed.
+Record xvoter := mkXVoter { xvr_beh : xbehaviour; xvr_weight : xq; xvr_rel : xq }.
+
+Definition xvote_of_voter (x : xvoter) : xvote :=
+  match xvr_beh x with
+  | XActed a c =>
+      mkXVote (kind_of_action a) (xmul (xvr_weight x) (xvr_rel x))
+              (match c with Some q => q | None => XFin 1 end)
+  | XFailed => mkXVote Abstain (xvr_weight x) (XFin 0)
+  end.
+
+Definition xcollect (voters : list xvoter) : list xvote := map xvote_of_voter voters.
+
+Record xconfig := mkXConfig { xc_strategy : strategy; xc_custom : option xq; xc_min_voters : Z }.
+
+(* `self.custom_threshold or default`: None and 0.0 are falsy, nan and inf are not *)
+Definition xthr_or (custom : option xq) (d : Q) : xq :=
+  match custom with
+  | Some (XFin t) => if Qeq_bool t 0 then XFin d else XFin t
+  | Some t => t
+  | None => XFin d
+  end.
+
+Definition xof_kind (k : kind) (votes : list xvote) : list xvote :=
+  filter (fun v => kind_eqb (xv_kind v) k) votes.
+
+(* the ballot with its numbers taken away *)
+Definition forget (v : xvote) : vote := mkVote (xv_kind v) 1 1.
+
+Definition xsum (f : xvote -> xq) (l : list xvote) : xq :=
+  fold_right (fun v acc => xadd (f v) acc) (XFin 0) l.
+
+(* `0.0 if total == 0 else p / total` *)
+Definition xratio_of (p total : xq) : xq :=
+  if xeq0 total then XFin 0 else xdiv p total.
+
+Definition xreached_majority (cfg : xconfig) (votes : list xvote) : bool :=
+  xltb (xthr_or (xc_custom cfg) majority_threshold) (XFin (count_ratio (map forget votes))).
+
+Definition xreached_supermajority (cfg : xconfig) (votes : list xvote) : bool :=
+  xltb (xthr_or (xc_custom cfg) supermajority_threshold) (XFin (count_ratio (map forget votes))).
+
+Definition xreached_weighted (cfg : xconfig) (votes : list xvote) : bool :=
+  let p := xsum xeff (xof_kind Permit votes) in
+  let b := xsum xeff (xof_kind Block votes) in
+  xltb (xthr_or (xc_custom cfg) majority_threshold) (xratio_of p (xadd p b)).
+
+(* `v.confidence >= CONFIDENCE_MIN` *)
+Definition xconfident (v : xvote) : bool := xleb (XFin confidence_min) (xv_conf v).
+
+Definition xreached_confidence (cfg : xconfig) (votes : list xvote) : bool :=
+  let p := xsum xeff (filter xconfident (xof_kind Permit votes)) in
+  let b := xsum xeff (filter xconfident (xof_kind Block votes)) in
+  xltb (xthr_or (xc_custom cfg) majority_threshold) (xratio_of p (xadd p b)).
+
+(* min(1.0, max(0.0, x)): max keeps 0.0 unless x > 0.0, min keeps 1.0 unless the
+   other is < 1.0 - so nan and -inf give 0.0, +inf gives 1.0 *)
+Definition xclamp01 (x : xq) : Q :=
+  match x with XFin q => clamp01 q | XPInf => 1 | XNInf => 0 | XNaN => 0 end.
+
+Definition xlik (v : xvote) : xq := xadd (XFin (1 # 2)) (xmul (xv_conf v) (XFin (2 # 5))).
+
+(* 0.5 + (l - 0.5) * w, clamped *)
+Definition xadj (l w : xq) : Q :=
+  xclamp01 (xadd (XFin (1 # 2)) (xmul (xadd l (XFin (- (1 # 2)))) w)).
+
+Definition xf_for (v : xvote) : Q := xadj (xlik v) (xv_weight v).
+Definition xf_against (v : xvote) : Q := xadj (xadd (XFin 1) (xneg (xlik v))) (xv_weight v).
+
+Definition xprod (f : xvote -> Q) (l : list xvote) : Q :=
+  fold_right (fun v acc => f v * acc) 1 l.
+
+Definition xbayes_posterior (votes : list xvote) : Q :=
+  let pp := (1 # 2) * xprod xf_for (xof_kind Permit votes) * xprod xf_against (xof_kind Block votes) in
+  let pb := (1 # 2) * xprod xf_against (xof_kind Permit votes) * xprod xf_for (xof_kind Block votes) in
+  if Qltb 0 (pp + pb) then pp / (pp + pb) else 1 # 2.
+
+Definition xreached_bayesian (cfg : xconfig) (votes : list xvote) : bool :=
+  xltb (xthr_or (xc_custom cfg) majority_threshold) (XFin (xbayes_posterior votes))
+  && (0 <? len (xof_kind Permit votes))%Z.
+
+(* the head-count a finite threshold stands for (the body of [count_needed]) *)
+Definition count_of_threshold (t : Q) (n : Z) : Z :=
+  if Qltb 0 t && Qltb t 1 then Z.max 1 (Qceiling (t * inject_Z n)) else trunc t.
+
+Inductive xerror := EZeroDivision | EValueError | EOverflow.
+
+(* `0 < threshold < 1` is false for nan / inf; int(nan) raises ValueError,
+   int(inf) and int(-inf) raise OverflowError *)
+Definition xcount_needed (custom : option xq) (n : Z) : Z + xerror :=
+  match xthr_or custom (inject_Z (n / 2 + 1)) with
+  | XFin t => inl (count_of_threshold t n)
+  | XNaN => inr EValueError
+  | XPInf | XNInf => inr EOverflow
+  end.
+
+Record xresult := mkXResult {
+  xr_reached : bool; xr_decision : kind;
+  xr_total : Z; xr_permit : Z; xr_block : Z; xr_abstain : Z;
+  xr_votes : list xvote }.
+
+Inductive xoutcome := XResult (r : xresult) | XRaised (e : xerror).
+
+Definition xdecided (reached : bool) (votes : list xvote) : xoutcome :=
+  XResult (mkXResult reached (if reached then Permit else Block)
+             (len votes) (len (xof_kind Permit votes)) (len (xof_kind Block votes))
+             (len (xof_kind Abstain votes)) votes).
+
+Definition xaggregate (cfg : xconfig) (votes : list xvote) : xoutcome :=
+  let total := (len votes - len (xof_kind Abstain votes) - len (xof_kind Defer votes))%Z in
+  if (total <? xc_min_voters cfg)%Z then
+    XResult (mkXResult false Abstain
+               (len votes) (len (xof_kind Permit votes)) (len (xof_kind Block votes))
+               (len (xof_kind Abstain votes)) votes)
+  else
+    match xc_strategy cfg with
+    | Majority => xdecided (xreached_majority cfg votes) votes
+    | Supermajority => xdecided (xreached_supermajority cfg votes) votes
+    | Unanimous => xdecided (reached_unanimous (map forget votes)) votes
+    | Weighted => xdecided (xreached_weighted cfg votes) votes
+    | Confidence => xdecided (xreached_confidence cfg votes) votes
+    | Bayesian => xdecided (xreached_bayesian cfg votes) votes
+    | ThresholdCount =>
+        match xcount_needed (xc_custom cfg) (len votes) with
+        | inr e => XRaised e
+        | inl k =>
+            if (len votes =? 0)%Z then XRaised EZeroDivision
+            else xdecided (k <=? len (xof_kind Permit votes))%Z votes
+        end
+    end.
+
+Definition xrun_vote (cfg : xconfig) (voters : list xvoter) : xoutcome :=
+  xaggregate cfg (xcollect voters).
+
+Definition x_is_permit (o : xoutcome) : bool :=
+  match o with
+  | XResult r => match xr_decision r with Permit => true | _ => false end
+  | XRaised _ => false
+  end.
+Definition x_is_reached (o : xoutcome) : bool :=
+  match o with XResult r => xr_reached r | XRaised _ => false end.
+
+(* observations of one run_vote call on a fresh instance: the result (or which
+   exception left run_vote: [-1] ZeroDivisionError, [-10] ValueError, [-11]
+   OverflowError), votes_cast per member, the statistics counters *)
+Definition xq_obs (x : xq) : list Z :=
+  match x with
+  | XFin q => 0%Z :: q_obs q
+  | XPInf => [1; 0; 1]%Z
+  | XNInf => [2; 0; 1]%Z
+  | XNaN => [3; 0; 1]%Z
+  end.
+
+Definition xobs_outcome (o : xoutcome) : list (list Z) :=
+  match o with
+  | XRaised EZeroDivision => [[-1]%Z]
+  | XRaised EValueError => [[-10]%Z]
+  | XRaised EOverflow => [[-11]%Z]
+  | XResult r =>
+      [1%Z; (if xr_reached r then 1 else 0)%Z; kind_code (xr_decision r);
+       xr_total r; xr_permit r; xr_block r; xr_abstain r; len (xr_votes r)]
+      :: map (fun v => kind_code (xv_kind v) :: xq_obs (xv_weight v) ++ xq_obs (xv_conf v)) (xr_votes r)
+  end.
+
+Definition xcase := (xconfig * list xvoter)%type.
+
+Definition xrun_case (c : xcase) : list (list Z) :=
+  let '(cfg, voters) := c in
+  let o := xrun_vote cfg voters in
+  xobs_outcome o
+  ++ [(-2)%Z; len voters]
+  :: map (fun x => [match xvr_beh x with XActed _ _ => 1 | XFailed => 0 end]%Z) voters
+  ++ [match o with
+      | XResult r => [(-5)%Z; xr_total r; (if xr_reached r then 1 else 0)%Z; (if xr_reached r then 0 else 1)%Z]
+      | XRaised _ => [(-5)%Z; 0; 0; 0]%Z
+      end].
+
+(* ---------------------------------------------------------------------- *)
 (* what the correspondence check evaluates on every case the implementation ran *)
-Definition run_case (c : tcase) : list (list Z) := compress (run_case_gen false c).
-Definition run_case_legacy (c : tcase) : list (list Z) := compress (run_case_gen true c).
+
+Inductive anycase :=
+| CWorld (c : wcase)              (* a history on one instance and its copies; finite numbers *)
+| CNonfinite (c : xcase).         (* one run_vote on a fresh instance; numbers may be nan / inf *)
+
+Definition run_case (c : anycase) : list (list Z) :=
+  match c with
+  | CWorld w => compress (run_world_gen false w)
+  | CNonfinite x => xrun_case x
+  end.
+Definition run_case_legacy (c : wcase) : list (list Z) := compress (run_world_gen true c).
